@@ -209,6 +209,15 @@ int vnacal_new_set_frequency_vector(vnacal_new_t *vnp,
 	    return -1;
 	}
     }
+    if (vnp->vn_m_error_vector != NULL && vnp->vn_frequencies_valid &&
+	    memcmp((void *)vnp->vn_frequency_vector, (void *)frequency_vector,
+		vnp->vn_frequencies * sizeof(double)) != 0) {
+	_vnacal_error(vcp, VNAERR_USAGE, "vnacal_new_set_frequency_vector: "
+		"the frequencies cannot be changed after "
+		"vnacal_new_set_m_error: the measurement error model has been "
+		"interpolated onto the previous ones");
+	return -1;
+    }
     if (vnp->vn_frequencies > 0 &&
 	    _vnacal_new_check_all_frequency_ranges(__func__, vnp,
 		frequency_vector[0],
